@@ -95,7 +95,7 @@ var propC01 = &modelProp{
 	nt: func(e *Env) bool {
 		return (e.flags["accepted-update"] > 0 || e.flags["delete"] > 0) && (e.flags["absent-lookup-of-deleted"] > 0 || e.flags["reopen"] > 0 || e.flags["abandon-reopen"] > 0)
 	},
-	rule: "rapid-generated programs over the full op alphabet (insert, upsert with caller uuid, update, resave, resurrect, delete, delete-absent, DeleteAll, search-delete, Many, Bulk, queries, Close+reopen, abandon+reopen, Create again, a search held across writes and then collected or deleted through) on one collection under generated configurations (cache, compression, async, lower-case names, extension, constraint subset); the reference model is stepped with every op and every read path (Count, All, AssignAll, Get, GetByUUID, Exist for every uuid ever seen, absent ids twice in a row, AssignIndex, search sweep over indexed paths, Control, directory walk in sync mode) is compared after every op. Non-trivial: >=1 accepted update or delete AND (>=1 lookup of a deleted id or a reopen). Distinct by program hash.",
+	rule: "rapid-generated programs over the full op alphabet (insert, upsert with caller uuid, update, resave, resurrect, delete, delete-absent, DeleteAll, search-delete, Many, Bulk, queries, Close+reopen, abandon+reopen, Create again, a search held across writes and then collected or deleted through) on one collection under generated configurations (cache, compression, async, lower-case names, extension, constraint subset); the reference model is stepped with every op and every read path (Count, All, AssignAll, Get, GetByUUID, Exist for every uuid ever seen, absent ids twice in a row, AssignIndex, search sweep over indexed paths, Control, directory walk in sync mode) is compared after every op. The lookups of the observation sweep reuse their receivers (each carries data and the uuid of the previous lookup). TestC01Sparse: objects of a type with omitempty / renamed members and an omitted nil pointer struct; Get and GetByUUID with receivers that carry other data return exactly the stored values. Non-trivial: >=1 accepted update or delete AND (>=1 lookup of a deleted id or a reopen). Distinct by program hash.",
 }
 
 func init() { propC01.register() }
